@@ -224,6 +224,16 @@ Section Facts.
         (vlen h s (eff_ver wv m) <= 11)%nat /\ bounds l /\ bounds r
     end.
 
+  Lemma bounds_leaf k v m : bounds (Leaf k v m) <-> 0 <= eff_ver wv m < 2 ^ 63.
+  Proof. reflexivity. Qed.
+
+  Lemma bounds_inner k h s m l r :
+    bounds (Inner k h s m l r) <->
+    (0 <= h < 2 ^ 63) /\ h <= 128 /\ (0 <= s < 2 ^ 63) /\ (0 <= eff_ver wv m < 2 ^ 63) /\
+    (length (varint_enc h) + length (varint_enc s) + length (varint_enc (eff_ver wv m)) <= 11)%nat /\
+    bounds l /\ bounds r.
+  Proof. reflexivity. Qed.
+
   (** a simple sufficient condition: heights < 64, sizes and versions < 2^34 *)
   Fixpoint simple_bounds (t : node) : Prop :=
     match t with
@@ -235,6 +245,7 @@ Section Facts.
 
   Lemma simple_bounds_ok t : simple_bounds t -> bounds t.
   Proof.
+    clear Hlen H.
     induction t as [k v m|k h s m l IHl r IHr]; cbn [simple_bounds bounds].
     - unfold i63. lia.
     - intros (A & B & C & D & E). unfold i63.
@@ -1089,6 +1100,7 @@ Section Facts.
 
   Lemma bounds_int64_tree t : bounds t -> int64_tree t.
   Proof.
+    clear Hlen H.
     induction t as [k v m|k h s m l IHl r IHr]; cbn [bounds int64_tree]; unfold i63, int64.
     - lia.
     - intros (A & B & C & D & E & F & G). repeat split; try lia; auto.
@@ -1345,6 +1357,16 @@ Section Facts.
   End Core.
 
   Definition keys_len_ok (t : node) : Prop := Forall (fun p => klen_ok (fst p)) (elems t).
+
+  (** a computable sufficient test *)
+  Lemma keys_len_ok_small t :
+    forallb (fun p => (N.of_nat (length (fst p)) <=? 1000000)%N) (elems t) = true -> keys_len_ok t.
+  Proof.
+    clear Hlen H. intros F. unfold keys_len_ok. rewrite forallb_forall in F. apply Forall_forall.
+    intros p I. specialize (F p I). apply N.leb_le in F. unfold klen_ok.
+    assert (B : (1000000 < 2 ^ 63 - 1)%N) by reflexivity.
+    eapply N.le_lt_trans; [exact F|exact B].
+  Qed.
 
   (** An existence proof accepted against the root hash of [t] walks a real path of [t] down
       to a leaf carrying the claimed key and value, or exhibits a collision. *)
@@ -1646,15 +1668,15 @@ Section Facts.
       destruct (blt k (ep_key r)) eqn:Br; [|discriminate].
       destruct (blt (ep_key l) k) eqn:Bl; [|discriminate]. cbn [negb] in Vx. btests.
       destruct (sound_existence t l _ _ W I64 Kt Ksl Vl) as (_ & _ & [(jl & Wl' & Gl)|C]).
-      2:{ right. exists np. split; [reflexivity|]. eapply collision_in_incl; [exact C| |apply incl_refl].
+      2:{ right. exists np. split; [reflexivity|]. unfold np_inputs. rewrite El, Er. eapply collision_in_incl; [exact C| |apply incl_refl].
           apply incl_appl, incl_refl. }
       destruct (sound_existence t r _ _ W I64 Kt Ksr Vr) as (_ & _ & [(jr & Wr' & Gr)|C]).
-      2:{ right. exists np. split; [reflexivity|]. eapply collision_in_incl; [exact C| |apply incl_refl].
+      2:{ right. exists np. split; [reflexivity|]. unfold np_inputs. rewrite El, Er. eapply collision_in_incl; [exact C| |apply incl_refl].
           apply incl_appr, incl_refl. }
       left. rewrite is_left_neighbor_eq in Vx.
       pose proof (neighbor_walks t W _ _ _ _ Vx Wl' Wr') as Adj. subst jr.
       pose proof (gbi_range t _ _ W Gl) as Rl. pose proof (gbi_range t _ _ W Gr) as Rr.
-      rewrite (gbi_nth t _ W) in Gl, Gr by lia.
+      rewrite (gbi_nth t _ W) in Gl by lia. rewrite (gbi_nth t _ W) in Gr by lia.
       apply (sorted_gap _ (Z.to_nat (jl + 1)) k Srt); [lia| |].
       + intros j' a va Ej N. replace j' with (Z.to_nat jl) in N by lia.
         rewrite Gl in N. inversion N; subst. exact Bl.
@@ -1665,7 +1687,7 @@ Section Facts.
       destruct (blt (ep_key l) k) eqn:Bl; [|discriminate]. cbn [negb] in Vx. btests.
       inversion Vx as [Rm].
       destruct (sound_existence t l _ _ W I64 Kt Ksl Vl) as (_ & _ & [(jl & Wl' & Gl)|C]).
-      2:{ right. exists np. split; [reflexivity|]. rewrite app_nil_r. exact C. }
+      2:{ right. exists np. split; [reflexivity|]. unfold np_inputs. rewrite El, Er. rewrite app_nil_r. exact C. }
       left. apply is_right_most_dirs in Rm. apply Forall_rev in Rm.
       pose proof (walk_all_right t W _ _ Rm Wl') as Jl. subst jl.
       pose proof (gbi_range t _ _ W Gl) as Rl. rewrite (gbi_nth t _ W) in Gl by lia.
@@ -1680,7 +1702,7 @@ Section Facts.
       destruct (blt k (ep_key r)) eqn:Br; [|discriminate]. cbn [negb] in Vx. btests.
       inversion Vx as [Lm].
       destruct (sound_existence t r _ _ W I64 Kt Ksr Vr) as (_ & _ & [(jr & Wr' & Gr)|C]).
-      2:{ right. exists np. split; [reflexivity|]. exact C. }
+      2:{ right. exists np. split; [reflexivity|]. unfold np_inputs. rewrite El, Er. exact C. }
       left. apply is_left_most_dirs in Lm. apply Forall_rev in Lm.
       pose proof (walk_all_left t _ _ Lm Wr') as Jr. subst jr.
       rewrite (gbi_nth t _ W) in Gr by lia.
@@ -1762,4 +1784,15 @@ Proof.
   split; [exact I|]. split; [reflexivity|]. split; [discriminate|].
   intros H wv Hwv. split; [apply hash_ok_new_leaf|]. split; [cbn; unfold i63; lia|].
   eexists. split; [reflexivity|]. apply empty_value_no_proof.
+Qed.
+
+(** * 4'. Wrong-kind requests, for the entry points *)
+Theorem kind_errors (H : bytes -> bytes) (wv : Z) (t : node) (k : bytes) :
+  (snd (get t k) = None -> get_membership_proof H wv (Some t) k = None) /\
+  (forall v, snd (get t k) = Some v -> get_nonmembership_proof H wv (Some t) k = None) /\
+  get_membership_proof H wv None k = None /\
+  get_proof H wv None k = None.
+Proof.
+  split; [apply member_absent_none|]. split; [intros v; apply nonmember_present_none|].
+  split; reflexivity.
 Qed.
